@@ -42,4 +42,5 @@ mut dtor_destroys_value_twice 's.replace("\t\t\t\t\tp->~T();\n", "\t\t\t\t\tp->~
 mut dtor_entry_dealloc_wrong_size 's.replace("\t\t\t\ttn = cn->parent;\n\t\t\t\tfrg::destruct(_allocator, cn);\n\t\t\t}else{", "\t\t\t\ttn = cn->parent;\n\t\t\t\t_allocator.deallocate(cn, sizeof(link_node));\n\t\t\t}else{")'
 mut root_store_weakened_to_relaxed 's.replace("\t\t\t\t\t_root.store(n, std::memory_order_release);", "\t\t\t\t\t_root.store(n, std::memory_order_relaxed);")'
 mut split_case_constructs_with_parens 's.replace("auto r = construct<link_node>(_allocator);", "auto r = construct<link_node>(_allocator); /*m*/", 1).replace("T{std::forward<Args>(args)...};", "T{std::forward<Args>(args)...} ;", 1).replace("T{std::forward<Args>(args)...};", "T(std::forward<Args>(args)...);", 1).replace("T{std::forward<Args>(args)...} ;", "T{std::forward<Args>(args)...};", 1)'
+mut erase_prefix_assert_only_for_inner_nodes 's.replace("\t\t\tFRG_ASSERT(pfx_of(k, n->depth) == n->prefix);\n\n\t\t\tauto idx = idx_of(k, n->depth);\n\t\t\tif(n->depth == ll) {\n\t\t\t\tauto cn = static_cast<entry_node *>(n);\n\t\t\t\tauto mask = cn->mask.load(std::memory_order_acquire);\n\t\t\t\tFRG_ASSERT(mask", "\n\t\t\tauto idx = idx_of(k, n->depth);\n\t\t\tif(n->depth == ll) {\n\t\t\t\tauto cn = static_cast<entry_node *>(n);\n\t\t\t\tauto mask = cn->mask.load(std::memory_order_acquire);\n\t\t\t\tFRG_ASSERT(mask")'
 git -C /repo worktree remove --force $W
